@@ -256,6 +256,79 @@ fn run_red(c: &RedCase, obs: &mut Obs) -> Result<(), String> {
     Ok(())
 }
 
+/// generator set asserted on a leaf, then the leaf's class is merged with the class of another k-slot term that has
+/// further members (so that either class can be the one that is absorbed); judged by the ground closure
+#[derive(Clone, Debug, Serialize, Deserialize, PartialEq, Eq)]
+pub struct MergeCase {
+    pub k: u8,
+    pub gens: Vec<P>,
+    /// true: the symmetric class gets the extra members (and survives), false: the other class gets them
+    pub sym_side_big: bool,
+    pub flip: bool,
+    /// assert the symmetries after the extra members were added (instead of before)
+    pub late: bool,
+}
+
+fn merge_hist(c: &MergeCase) -> Hist {
+    let k = c.k as usize;
+    let id: P = (0..k as u8).collect();
+    let g = |p: &P| leaf_term(k, p);
+    let h = Tm::leaf(if k == 3 { "h3" } else { "h4" }, &id.iter().map(|x| *x as Name).collect::<Vec<_>>());
+    let kk = |t: Tm| Arg::K(vec![], t);
+    let f2 = |a: Name, b: Name| Tm::leaf("f2", &[a, b]);
+    let v = |a: Name| Tm::leaf("v", &[a]);
+    let extra: Vec<Tm> = if k == 3 {
+        vec![Tm::node("p", vec![kk(f2(0, 1)), kk(v(2))]), Tm::node("p", vec![kk(v(0)), kk(f2(1, 2))])]
+    } else {
+        vec![Tm::node("p", vec![kk(f2(0, 1)), kk(f2(2, 3))]), Tm::node("p", vec![kk(f2(0, 2)), kk(f2(1, 3))])]
+    };
+    let mut ops = vec![HOp::Add(g(&id))];
+    let mut n = 1;
+    let assert_gens = |ops: &mut Vec<HOp>, n: &mut usize| {
+        for p in &c.gens {
+            ops.push(HOp::Add(g(p)));
+            ops.push(HOp::Union(0, *n));
+            *n += 1;
+        }
+    };
+    if !c.late {
+        assert_gens(&mut ops, &mut n);
+    }
+    ops.push(HOp::Add(h.clone()));
+    let hi = n;
+    n += 1;
+    for e in &extra {
+        ops.push(HOp::Add(e.clone()));
+        ops.push(HOp::Union(if c.sym_side_big { 0 } else { hi }, n));
+        n += 1;
+    }
+    if c.late {
+        assert_gens(&mut ops, &mut n);
+    }
+    ops.push(if c.flip { HOp::Union(hi, 0) } else { HOp::Union(0, hi) });
+    // every permuted copy of both leaves is part of the history, so that the closure compares all of them
+    for p in all_perms_k(k) {
+        ops.push(HOp::Add(g(&p)));
+    }
+    Hist { lang: LangId::Core, naming: Naming::Alpha, ops }
+}
+
+fn run_merge(c: &MergeCase, obs: &mut Obs) -> Result<(), String> {
+    let hst = merge_hist(c);
+    let mut o1 = Obs::default();
+    run_closure(&hst, Dir::Complete, &mut o1)?;
+    let mut o2 = Obs::default();
+    run_closure(&hst, Dir::Sound, &mut o2)?;
+    obs.cmp(o1.comparisons + o2.comparisons);
+    let n = closure(c.k as usize, &c.gens).len();
+    let full: usize = (1..=c.k as usize).product();
+    obs.nontrivial = n > 1 && n < full;
+    if c.gens.len() >= 2 {
+        obs.label("two-generators-transported");
+    }
+    Ok(())
+}
+
 fn exhaustive_sets(max_k: usize) -> Vec<GroupCase> {
     let mut out = Vec::new();
     for k in 2..=max_k {
@@ -370,6 +443,33 @@ pub fn property(tier: Tier) -> Property {
             panic_is_violation: false,
             render: |c: &RedCase| red_hist(c).render(),
             rule: "exhaustive: all generator sets of <= 2 permutations on 3 and 4 points, then each slot in turn made redundant by a further union; remaining symmetries and redundancies judged by the ground closure in both directions",
+            case_timeout_s: 60,
+            exhaustive: true,
+        }),
+        Box::new(Stage {
+            name: "egraph-merged",
+            source: Source::Enumerate(Arc::new(move || {
+                let mut v = Vec::new();
+                let mut i = 0usize;
+                for c in exhaustive_sets(4) {
+                    if c.gens.is_empty() || c.gens.len() > 2 || c.k < 3 {
+                        continue;
+                    }
+                    for variant in 0..8u8 {
+                        i += 1;
+                        // quick tier: for 4 points every third (set, variant) combination
+                        if c.k == 4 && tier == Tier::Quick && i % 3 != 0 {
+                            continue;
+                        }
+                        v.push(MergeCase { k: c.k, gens: c.gens.clone(), sym_side_big: variant & 1 == 1, flip: variant & 2 == 2, late: variant & 4 == 4 });
+                    }
+                }
+                Box::new(v.into_iter())
+            })),
+            run: run_merge,
+            panic_is_violation: false,
+            render: |c: &MergeCase| merge_hist(c).render(),
+            rule: "exhaustive: all generator sets of 1-2 permutations on 3 and 4 points asserted on a leaf g (before or after further members were added), whose class is then merged with the class of another k-slot leaf h; either class has two further members, so both can be the absorbed one, both orientations of the union (k = 4: every third combination in the quick tier, all in the thorough tier); all k! permuted copies and all other terms judged by the ground closure in both directions: the generated group must survive the merge exactly",
             case_timeout_s: 60,
             exhaustive: true,
         }),
